@@ -204,6 +204,8 @@ impl Caret {
     fn check_scrolling_on_caret_up(&mut self, buf: &mut Buffer, current_layer: usize, force: bool) {
         if buf.needs_scrolling() || force {
             let last = buf.get_first_editable_line();
+            // scrolling more often than the layer has rows leaves the region blank every time
+            self.pos.y = self.pos.y.max(last.saturating_sub(buf.layers[current_layer].get_height().saturating_add(1)));
             while self.pos.y < last {
                 buf.scroll_down(current_layer);
                 self.pos.y += 1;
@@ -268,6 +270,9 @@ impl Buffer {
         let end_column = self.get_last_editable_column();
 
         let layer = &mut self.layers[layer];
+        // cells outside the layer read as invisible and cannot be written: stop there instead of at a huge margin
+        let end_line = end_line.min(layer.get_height());
+        let end_column = end_column.min(layer.get_width());
         for x in start_column..=end_column {
             (start_line..end_line).for_each(|y| {
                 let ch = layer.get_char((x, y + 1));
@@ -285,6 +290,9 @@ impl Buffer {
         let end_column = self.get_last_editable_column();
 
         let layer = &mut self.layers[layer];
+        // cells outside the layer read as invisible and cannot be written: stop there instead of at a huge margin
+        let end_line = end_line.min(layer.get_height());
+        let end_column = end_column.min(layer.get_width());
         for x in start_column..=end_column {
             ((start_line + 1)..=end_line).rev().for_each(|y| {
                 let ch = layer.get_char((x, y - 1));
